@@ -1,8 +1,8 @@
 package spec
 
 type C16Case struct {
-	Cookie    string `json:"cookie"`    // unset | empty | prefix | suffix | case | other | padded | correct
-	CfgCookie string `json:"cfgCookie"` // normal | emptyKey | emptyValue
+	Cookie    string `json:"cookie"`    // unset | empty | prefix | prefix64 | suffix | newline | othertail | case | other | padded | correct
+	CfgCookie string `json:"cfgCookie"` // normal | emptyKey | emptyValue | long64 (a 64-character value) | long74
 	Proto     string `json:"proto"`     // netrpc | grpc
 	TLS       string `json:"tls"`       // none | provider | clientcert
 	Sets      string `json:"sets"`      // legacy | versioned
